@@ -299,7 +299,175 @@ def _from_io_exact():
     return "true" if ok else "false"
 
 
+# ---- C01 / C12 / C13 : the serializer -----------------------------------------------------------
+
+
+def coq_list(items):
+    return "[" + "; ".join(items) + "]"
+
+
+@fact("opcode_table", "list (string * Z)", "[]")
+def _opcode_table():
+    """class opcode: NAME = b"x" in source order"""
+    c = find("gateway_base.py", "opcode")
+    out = []
+    for st in c.body:
+        if isinstance(st, ast.Assign) and len(st.targets) == 1 and isinstance(st.value, ast.Constant) and isinstance(st.value.value, bytes) and len(st.value.value) == 1:
+            out.append(f"({coq_string(st.targets[0].id)}, {coq_z(st.value.value[0])})")
+        elif isinstance(st, ast.Expr) and isinstance(st.value, ast.Constant):
+            continue
+        else:
+            raise ValueError("opcode: unexpected statement " + unparse(st)[:40])
+    return coq_list(out)
+
+
+@fact("loader_table", "list (string * string)", "[]")
+def _loader_table():
+    """Unserializer: num2func[opcode.X] = load_y registrations with aliases resolved, sorted by opcode name"""
+    c = find("gateway_base.py", "Unserializer")
+    alias, reg = {}, {}
+    for st in c.body:
+        if isinstance(st, ast.FunctionDef):
+            alias[st.name] = st.name
+        elif isinstance(st, ast.Assign) and len(st.targets) == 1:
+            t, v = st.targets[0], st.value
+            if isinstance(t, ast.Name) and isinstance(v, ast.Name) and v.id in alias:
+                alias[t.id] = alias[v.id]
+            elif isinstance(t, ast.Subscript) and unparse(t.value) == "num2func" and unparse(t.slice).startswith("opcode.") and isinstance(v, ast.Name):
+                name = unparse(t.slice)[7:]
+                if name in reg:
+                    raise ValueError("opcode registered twice: " + name)
+                reg[name] = alias[v.id]
+    return coq_list([f"({coq_string(k)}, {coq_string(reg[k])})" for k in sorted(reg)])
+
+
+@fact("saver_table", "list (string * list string)", "[]")
+def _saver_table():
+    """_Serializer.save_<type>: the opcode names each one writes (in order of occurrence), sorted by method"""
+    c = find("gateway_base.py", "_Serializer")
+    out = []
+    for st in c.body:
+        if isinstance(st, ast.FunctionDef) and st.name.startswith("save_"):
+            ops = [n.attr for n in ast.walk(st) if isinstance(n, ast.Attribute) and unparse(n.value) == "opcode"]
+            order = sorted(((n.lineno, n.col_offset, n.attr) for n in ast.walk(st) if isinstance(n, ast.Attribute) and unparse(n.value) == "opcode"))
+            out.append((st.name, [a for _, _, a in order]))
+    out.sort()
+    return coq_list([f"({coq_string(m)}, {coq_list([coq_string(o) for o in ops])})" for m, ops in out])
+
+
+def _module_const(name):
+    for st in tree("gateway_base.py").body:
+        if isinstance(st, ast.Assign) and len(st.targets) == 1 and getattr(st.targets[0], "id", None) == name:
+            return st.value
+    raise LookupError(name)
+
+
+@fact("dump_version", "Z", "(-1)%Z")
+def _dump_version():
+    v = _module_const("DUMPFORMAT_VERSION")
+    if isinstance(v, ast.Call) and unparse(v.func) == "bchr" and isinstance(v.args[0], ast.Constant):
+        return coq_z(v.args[0].value)
+    raise ValueError("DUMPFORMAT_VERSION shape")
+
+
+@fact("four_byte_int_max", "Z", "(-1)%Z")
+def _four_byte_int_max():
+    return coq_z(ast.literal_eval(_module_const("FOUR_BYTE_INT_MAX")))
+
+
+@fact("float_formats", "string * string", '("?", "?")')
+def _float_formats():
+    a, b = _module_const("FLOAT_FORMAT"), _module_const("COMPLEX_FORMAT")
+    return f"({coq_string(a.value)}, {coq_string(b.value)})"
+
+
+@fact("int_lo_checked", "bool", "false")
+def _int_lo_checked():
+    """_save_integral's short branch tests a lower bound too (ints below -2**31 take the decimal-text opcode)"""
+    f = find("gateway_base.py", "_Serializer._save_integral")
+    ifs = [n for n in f.body if isinstance(n, ast.If)]
+    if len(ifs) != 1:
+        raise ValueError("_save_integral shape")
+    t = ifs[0].test
+    src = unparse(t)
+    if src == "i <= FOUR_BYTE_INT_MAX":
+        return "false"
+    if src in ("-FOUR_BYTE_INT_MAX - 1 <= i <= FOUR_BYTE_INT_MAX", "FOUR_BYTE_INT_MIN <= i <= FOUR_BYTE_INT_MAX"):
+        return "true"
+    raise ValueError("_save_integral test: " + src)
+
+
+@fact("loader_reads_exact", "bool", "false")
+def _loader_reads_exact():
+    """every fixed/length-prefixed read of the Unserializer goes through one helper that raises EOFError
+    on a short read and LoadError on a negative length"""
+    c = find("gateway_base.py", "Unserializer")
+    helper = None
+    for st in c.body:
+        if isinstance(st, ast.FunctionDef) and st.name in ("_read", "_read_exact"):
+            src = unparse(st)
+            if "raise EOFError" in src and "raise LoadError" in src and "self.stream.read(" in src and "< 0" in src and "len(" in src:
+                helper = st.name
+    if helper is None:
+        return "false"
+    for name in ("_read_int4", "load_float", "load_complex", "_read_byte_string"):
+        src = unparse(find("gateway_base.py", "Unserializer." + name))
+        if "self.stream.read(" in src or f"self.{helper}(" not in src:
+            return "false"
+    return "true"
+
+
+@fact("loader_errors_typed", "bool", "false")
+def _loader_errors_typed():
+    """Unserializer.load turns every other exception of a loader into LoadError"""
+    f = find("gateway_base.py", "Unserializer.load")
+    for tr in [n for n in ast.walk(f) if isinstance(n, ast.Try)]:
+        if "loader(self)" in unparse(ast.Module(body=tr.body, type_ignores=[])):
+            for h in tr.handlers:
+                if h.type is not None and unparse(h.type) == "Exception" and _raises(ast.Module(body=h.body, type_ignores=[]), "LoadError"):
+                    return "true"
+    return "false"
+
+
+@fact("send_dumps_before_write", "bool", "false")
+def _send_dumps_before_write():
+    """Channel.send serialises the item as an argument of the _send call (nothing is written before dumps succeeded)"""
+    f = find("gateway_base.py", "Channel.send")
+    calls = _calls(f, "self.gateway._send")
+    if len(calls) == 1 and any(unparse(a) == "dumps_internal(item)" for a in calls[0].args):
+        return "true"
+    return "false"
+
+
+@fact("strconfig_defaults", "(bool * bool) * (bool * bool)", "((true, true), (false, true))")
+def _strconfig_defaults():
+    """(defaults of loads()/load(), class defaults of Unserializer used by gateways/channels)"""
+    def defaults(qual):
+        f = find("gateway_base.py", qual)
+        names = [a.arg for a in f.args.args]
+        d = dict(zip(names[len(names) - len(f.args.defaults):], f.args.defaults))
+        return (d["py2str_as_py3str"].value, d["py3str_as_py2str"].value)
+    a, b = defaults("loads"), defaults("load")
+    if a != b:
+        raise ValueError("loads/load defaults differ")
+    c = find("gateway_base.py", "Unserializer")
+    cls = {}
+    for st in c.body:
+        if isinstance(st, ast.Assign) and isinstance(st.value, ast.Constant) and isinstance(st.value.value, bool):
+            cls[st.targets[0].id] = st.value.value
+    bo = lambda x: "true" if x else "false"
+    return f"(({bo(a[0])}, {bo(a[1])}), ({bo(cls['py2str_as_py3str'])}, {bo(cls['py3str_as_py2str'])}))"
+
+
 DIGESTS = [
+    ("gateway_base.py", "_Serializer"),
+    ("gateway_base.py", "Unserializer"),
+    ("gateway_base.py", "dumps"),
+    ("gateway_base.py", "loads"),
+    ("gateway_base.py", "load"),
+    ("gateway_base.py", "loads_internal"),
+    ("gateway_base.py", "dumps_internal"),
+    ("gateway_base.py", "Channel.send"),
     ("gateway_base.py", "Message.to_io"),
     ("gateway_base.py", "Message.from_io"),
     ("gateway_base.py", "Popen2IO.read"),
